@@ -463,7 +463,13 @@ impl InflightRequests {
             Ok(index) => {
                 let request = self.requests.remove(index);
 
-                self.update_rtt_estimates(request.sent_at.elapsed());
+                // A response that took longer than we would have kept the request around says
+                // nothing about the round trip time (the peer was suspended, for example), and
+                // would inflate the request timeout to minutes, for good.
+                let sample_rtt = request.sent_at.elapsed();
+                if sample_rtt < self.request_timeout() * 4 {
+                    self.update_rtt_estimates(sample_rtt);
+                }
                 trace!(
                     "Updated estimated round trip time {:?} and request timeout {:?}",
                     self.estimated_rtt,
